@@ -115,7 +115,7 @@ def hist_model_line(h, st):
 
 
 PROPS = ["coq/C02/Properties_C02.v", "coq/C02/Properties_C02_rot.v", "coq/C02/Properties_C02_sym.v", "coq/C02/Properties_C02_fit.v",
-         "coq/C02/Properties_C02_load.v", "coq/C02/Properties_C02_path.v", "coq/C02/Properties_C02_sup.v"]
+         "coq/C02/Properties_C02_load.v", "coq/C02/Properties_C02_path.v", "coq/C02/Properties_C02_sup.v", "coq/C02/Properties_C02_cell.v"]
 EXTRACT = "coq/C02/Extract_C02.v"
 DRIVER = "props/C02/driver.ml"
 UNIT = {"c02unit": ["props/C02/unit.cpp"]}
@@ -1658,7 +1658,21 @@ def judge_rot(run, ro, ilines, iout, mlines, mout):
 def gen_misc(r, n):
     out = []
     for k in range(n):
-        kind = r.choice(["qsign", "qsign", "pd", "pd", "pd"])
+        kind = r.choice(["qsign", "qsign", "pd", "pd", "pd", "pdt", "pdt"])
+        if kind == "pdt":
+            generic = r.random() < 0.3
+            dy = (lambda lo, hi: r.uniform(lo, hi)) if generic else (lambda lo, hi: V.dyadic(r, lo, hi, bits=2))
+            L = [r.choice([8.0, 16.0]) for _ in range(3)]
+            a = [L[0], 0.0, 0.0]; b = [dy(-3, 3), L[1], 0.0]; c = [dy(-3, 3), dy(-3, 3), L[2]]
+            if r.random() < 0.3:      # a general orientation: the same cell turned by an axis rotation
+                M = r.choice(G.AXIS_ROT); a, b, c = G.matvec(M, a), G.matvec(M, b), G.matvec(M, c)
+            p1 = [V.dyadic(r, -30, 30) for _ in range(3)]; p2 = [V.dyadic(r, -30, 30) for _ in range(3)]
+            n1 = [r.randint(-3, 3) for _ in range(3)]
+            p2s = [p2[k] + n1[0] * a[k] + n1[1] * b[k] + n1[2] * c[k] for k in range(3)]
+            f = lambda q1, q2: "PDT %s %s %s %s %s" % tuple(" ".join(G.hx(x) for x in v) for v in (a, b, c, q1, q2))
+            out.append({"kind": "pdt", "cellv": [a, b, c], "p1": p1, "p2": p2, "n": n1, "generic": generic,
+                        "impl": [f(p1, p2), f(p1, p2s)], "model": [f(p1, p2), f(p1, p2s)]})
+            continue
         if kind == "qsign":
             q = G.random_unit_quat(r) if r.random() < 0.7 else r.choice([[1.0, 0.0, 0.0, 0.0], [0.0, 1.0, 0.0, 0.0], [0.5, 0.5, 0.5, 0.5], [0.0, 0.0, 0.6, 0.8]])
             ax = r.choice([[0.0, 0.0, 1.0], [1.0, 0.0, 0.0], [0.0, 1.0, 0.0]])
@@ -1689,6 +1703,27 @@ def judge_misc(run, ms, ilines, iout, mlines, mout):
     rep = replay_obj("lines", lines, {"model_lines": [mlines[m] for m in ms["m"]]})
     if any(x is None for x in a):
         run.violation("misc:%s:error" % ms["kind"], "no numeric result: %s" % [iout[i][:80] for i in ms["i"]], rep)
+        return
+    if ms["kind"] == "pdt":
+        a3, b3, c3 = ms["cellv"]
+        # reduced coordinates by Cramer's rule (python floats)
+        det = G.dot(G.cross(b3, c3), a3)
+        red = lambda v: [G.dot(G.cross(b3, c3), v) / det, G.dot(G.cross(c3, a3), v) / det, G.dot(G.cross(a3, b3), v) / det]
+        d = G.sub(ms["p2"], ms["p1"])
+        amb = any(abs((x + 0.5) - round(x + 0.5)) < 1e-7 for x in red(d)) and ms["generic"]
+        if amb:
+            run.dist("boundary-ambiguous"); return
+        for k in range(2):
+            if not vclose(a[k], b[k], 1e-9):
+                run.mismatch("value:position_distance:triclinic", lines[k], iout[ms["i"][k]], mout[ms["m"][k]])
+        if not vclose(a[0], a[1], 1e-9):
+            run.violation("min-image:triclinic:lattice", "position_distance in the cell %r changes when the second position is moved by the lattice vector %r: %r vs %r" % (ms["cellv"], ms["n"], a[0], a[1]), rep)
+        rr = red(a[0])
+        if any(not (-0.5 - 1e-9 <= x <= 0.5 + 1e-9) for x in rr):
+            run.violation("min-image:triclinic:range", "position_distance %r has reduced coordinates %r outside [-1/2, 1/2] in the cell %r" % (a[0], rr, ms["cellv"]), rep)
+        rd = red(G.sub(d, a[0]))
+        if any(abs(x - round(x)) > 1e-8 for x in rd):
+            run.violation("min-image:triclinic:congruent", "position_distance %r is not the plain difference %r minus a lattice vector of %r" % (a[0], d, ms["cellv"]), rep)
         return
     if ms["kind"] == "qsign":
         for k in range(2):
